@@ -150,6 +150,7 @@ type c11Run struct {
 	unit     []string
 	herr     string
 	sampled  map[string]int
+	stopped  bool
 }
 
 func (r *c11Run) report(sig, desc string) {
@@ -161,6 +162,14 @@ func (r *c11Run) report(sig, desc string) {
 	v := &c11Viol{Sig: sig, Desc: desc, Prop: "C11", Count: 1, Unit: append([]string(nil), r.unit...)}
 	r.sigs[sig] = v
 	r.res.Violations = append(r.res.Violations, v)
+}
+
+func (r *c11Run) violCount() int {
+	c := 0
+	for _, v := range r.res.Violations {
+		c += v.Count
+	}
+	return c
 }
 
 func (r *c11Run) fail(format string, a ...interface{}) {
@@ -384,6 +393,10 @@ type c11World struct {
 	cm       uint64
 	lastseen string
 	intact   bool
+	// a node restored from a snapshot replays the compacted log: channel messages from before the
+	// snapshot may be gone from the output stream
+	snapshotted bool
+	contentGone bool
 }
 
 func (w *c11World) nextCM() uint64 { w.cm++; return w.cm }
@@ -481,6 +494,9 @@ func (r *c11Run) alive(s vSession) bool {
 }
 
 func (r *c11Run) teardown(w *c11World) {
+	if r.stopped {
+		return
+	}
 	for _, s := range []vSession{w.U, w.L, w.F, w.V} {
 		if s.Num != 0 && r.alive(s) {
 			r.n.deleteSession(s, "c11 teardown")
@@ -508,6 +524,7 @@ func (r *c11Run) history(hist string, w *c11World) {
 		n.Stop()
 		nn, err := vStartNode(r.dir, false)
 		if err != nil {
+			r.stopped = true
 			r.fail("restart: %v", err)
 			return
 		}
@@ -521,14 +538,19 @@ func (r *c11Run) history(hist string, w *c11World) {
 			m := fmt.Sprintf("c11-marker-%d-h%d", w.k, oi)
 			w.markers = append(w.markers, m)
 			post(w.U, "PRIVMSG "+w.ch+" :"+m)
+			w.contentGone = false
 		case "config":
 			if resp := n.setConfig(strings.Replace(vCfgFast, `"30m"`, fmt.Sprintf(`"%dm"`, 31+(w.k+oi)%20), 1)); resp.Code != 200 {
 				r.fail("history config: %d %s", resp.Code, resp.Body)
 			}
 		case "snapshot":
 			snapshot()
+			w.snapshotted = true
 		case "restart":
 			restart()
+			if w.snapshotted {
+				w.contentGone = true
+			}
 		default:
 			r.fail("unknown history operation %q", op)
 		}
@@ -876,6 +898,7 @@ func (r *c11Run) sessionUnit(hist, state, spell string) {
 	creds = append(creds, c11Cred{label: "the network password", kind: "the network password as secret", val: vNetPassword})
 
 	shapes := c11Shapes(w)
+	viol0 := r.violCount()
 	for _, sh := range shapes {
 		if sh.method == "POST" && sp+sh.suffix == "session" {
 			continue // POST /robustirc/v1/session is the (public) session creation
@@ -892,6 +915,9 @@ func (r *c11Run) sessionUnit(hist, state, spell string) {
 	}
 	if !live || garbage {
 		return
+	}
+	if r.violCount() != viol0 {
+		return // a request that had to be refused was accepted: the world is disturbed, no life cycle on it
 	}
 	if !w.intact {
 		return // the history operation lost the sessions (not this property's business); refusals were still checked
@@ -919,8 +945,7 @@ func (r *c11Run) sessionUnit(hist, state, spell string) {
 		return
 	}
 	must := spell == "hex"
-	// a node restored from a snapshot replays the compacted log: old channel messages may be gone
-	expectContent := !(strings.Contains(hist, "snapshot") && strings.HasSuffix(hist[strings.Index(hist, "snapshot"):], "restart"))
+	expectContent := !w.contentGone
 	r.lifecycle(w, T, sp, state, spell, correct, must, expectContent)
 }
 
@@ -1285,13 +1310,16 @@ type c11Unit struct {
 func c11Units(thorough bool) []c11Unit {
 	hists := []string{"h0", "post1", "config", "snapshot+restart"}
 	if thorough {
-		// every sequence of at most two history operations
+		// every sequence of at most three history operations
 		ops := []string{"post1", "config", "snapshot", "restart"}
 		hists = []string{"h0"}
 		hists = append(hists, ops...)
 		for _, a := range ops {
 			for _, b := range ops {
 				hists = append(hists, a+"+"+b)
+				for _, c := range ops {
+					hists = append(hists, a+"+"+b+"+"+c)
+				}
 			}
 		}
 	}
@@ -1402,7 +1430,9 @@ func TestVerifC11(t *testing.T) {
 		}
 	}
 	r.progress("END")
-	r.quiesce()
-	r.n.Stop()
+	if !r.stopped {
+		r.quiesce()
+		r.n.Stop()
+	}
 	write()
 }
